@@ -31,6 +31,14 @@ def joinOpt : Option Box3 → Option Box3 → Option Box3
   | a, none => a
   | some a, some b => some (a.join b)
 
+/-- the box of one point -/
+def Box3.ofPoint (p : V3) : Box3 := { lo := p, hi := p }
+
+/-- `WallGeom::aabb` on the global corners of the polygon: six running minima / maxima started at ±inf
+(`none` is that start: the box of no point at all) -/
+def aabbOfPoints (pts : List V3) : Option Box3 :=
+  pts.foldl (fun acc p => joinOpt acc (some (Box3.ofPoint p))) none
+
 /-- bounds of the parameter t along one axis: (empty?, lower bound, upper bound) -/
 structure Itv where
   empty : Bool
